@@ -131,6 +131,17 @@ for _src, _why in (("try { throw \"a\" } catch e { throw \"b\" } finally { probe
     EXPECT.append({"src": _src, "field": "trace", "want": "(s:66)", "finding": "finally-skipped-when-catch-leaves",
                    "why": "finally runs after a try whose error was caught, also when " + _why})
 
+# a receive statement whose ok target cannot be assigned fails as a whole: the error reaches the try, the value target is not assigned
+for _v in ("v", "b"):
+    EXPECT.append({"src": "ch = make(chan int64, 1); ch <- 1; q = 1; b = 0; r = \"none\"\ntry { %s, q.z = <-ch; r = \"after\" } catch e { r = \"caught\" }\n[r, b, defined_v()]".replace("defined_v()", "(v ?? \"undefined\")") % _v,
+                   "field": "result", "want": "[s:636175676874,i:0,s:756e646566696e6564]", "finding": "receive-ok-target-error-ignored", "why": "the error of the ok target of a receive statement reaches the enclosing try and nothing after the failing point runs (value target %s)" % _v})
+EXPECT.append({"src": "ch = make(chan int64, 1); ch <- 1; m = {}\nfunc bad() { throw \"in the ok target\" }\nv, m[bad()] = <-ch\nprobe(\"after\")", "field": "status", "want": "err", "finding": "receive-ok-target-error-ignored",
+               "why": "an error while evaluating the ok target of a receive statement is returned to the host"})
+EXPECT.append({"src": "ch = make(chan int64, 1); ch <- 1; m = {}\nfunc bad() { throw \"in the ok target\" }\nv, m[bad()] = <-ch\nprobe(\"after\")", "field": "trace", "want": "", "finding": "receive-ok-target-error-ignored",
+               "why": "... and nothing after the receive statement runs"})
+EXPECT.append({"src": "#cancel=6\nch = make(chan int64, 1); ch <- 1; m = {}\nfunc spin() { for { } }\nv, m[spin()] = <-ch\nprobe(\"after\")", "field": "msg", "want": "execution interrupted", "finding": "receive-ok-target-error-ignored",
+               "why": "a cancellation while the ok target of a receive statement is evaluated is not swallowed"})
+
 
 def run(tier, seed, replay=None):
     return interpcheck.run_interp_check(
